@@ -6,8 +6,8 @@ import multiprocessing as mp
 VERIF = os.path.dirname(os.path.dirname(os.path.abspath(__file__)))
 REPO = os.environ.get("AMC_REPO", "/repo")
 KNOWN_PATH = os.path.join(VERIF, "KNOWN_FINDINGS.json")
-EVIDENCE_DIR = os.path.join(VERIF, "evidence")
-REPLAY_DIR = os.path.join(VERIF, "replays")
+EVIDENCE_DIR = os.environ.get("AMC_EVIDENCE_DIR") or os.path.join(VERIF, "evidence")
+REPLAY_DIR = os.environ.get("AMC_REPLAY_DIR") or os.path.join(VERIF, "replays")
 NPROC = int(os.environ.get("AMC_NPROC", "16"))
 
 
